@@ -16,7 +16,7 @@ from checks import common, corpus
 LEVEL = "model_checking"
 
 HOLD_POPS = ["same", "same3", "encdec"]
-BROKEN_POPS = {"stagger": "init_during_encode", "diffsb": "sb_size", "diffflags": "cpu_flags", "dec2": "two_decoders"}
+BROKEN_POPS = {"concinit": "concurrent_init", "stagger": "init_during_encode", "diffsb": "sb_size", "diffflags": "cpu_flags", "dec2": "two_decoders"}
 
 
 def model_part(res):
@@ -49,9 +49,9 @@ def spec_str(s, delay=0):
     return ("dec:" if s.get("dec") else "enc:") + ",".join(parts)
 
 
-def run_multi(exe, specs_delays, tag, timeout, barrier=False):
+def run_multi(exe, specs_delays, tag, timeout, barrier=False, concurrent_init=False):
     out = os.path.join(vlib.tmpdir(), "c17_%s_%d.nd" % (tag, os.getpid()))
-    cmd = [exe, "--out", out, "--timeout", str(timeout)] + (["--barrier"] if barrier else [])
+    cmd = [exe, "--out", out, "--timeout", str(timeout)] + (["--barrier"] if barrier else []) + (["--concurrent-init"] if concurrent_init else [])
     for s, d in specs_delays:
         cmd += ["--inst", spec_str(s, d)]
     rc, log = vlib.sh(cmd, timeout=timeout * 8 + 60)
@@ -110,7 +110,8 @@ def run(res):
     D8 = dict(st["s8"], threads=1)
     D8t = dict(st["s8"], threads=3)
     D10 = dict(st["s10"], threads=1)
-    # expect = None: the model guarantees NoInterference for this population (encoders behind the init barrier);
+    # expect = None: the model guarantees NoInterference for this population (encoders initialised one at a time, all before
+    # any of them encodes);
     # otherwise the population the model shows to interfere (judged, and keyed, as that finding)
     stag = {"differs": "init_during_encode"}
     groups = [
@@ -121,6 +122,8 @@ def run(res):
         ("enc_dec_mt", [(C, 0), (D8t, 0)], None),
         ("triple", [(A, 0), (C, 60), (D10, 20)], None),
         ("pair_asm", [(A, 0), (Fc, 40)], None),
+        ("concinit_pair", [(A, 0), (D, 0)], {"differs": "concurrent_init"}),
+        ("concinit_triple", [(A, 0), (D, 0), (E, 0)], {"differs": "concurrent_init"}),
         ("stagger_pair", [(A2, 0), (A, 150)], stag),
         ("stagger_preset", [(A, 0), (D, 0)], stag),
         ("stagger_triple", [(A2, 0), (C, 100), (D, 200)], stag),
@@ -154,7 +157,10 @@ def run(res):
         solo[key] = obs_of(evs, 0, "solo")
         bundle.add("Observe", [{"ev": "Run", "key": key}] + solo[key] + [{"ev": "RunEnd"}], "solo " + key)
     # groups
-    gouts = common.parallel(lambda gg: run_multi(exe, gg[1], gg[0], 600, barrier=gg[2] is None), groups, workers=4)
+    def rung(gg):
+        conc = bool(gg[2]) and gg[2].get("differs") == "concurrent_init"
+        return run_multi(exe, gg[1], gg[0], 600, barrier=gg[2] is None or conc, concurrent_init=conc)
+    gouts = common.parallel(rung, groups, workers=4)
     for (name, g, expect), (rc, evs, cmd) in zip(groups, gouts):
         desc = "group %s: %s" % (name, " || ".join(spec_str(s, d) for s, d in g))
         res.case(desc)
